@@ -168,8 +168,27 @@ func genStmts() string {
 		{"orch", []fref{{"threshold/threshold.go", "Scheme.KeyGen"}, {"threshold/threshold.go", "Scheme.runDKG"}, {"threshold/threshold.go", "Scheme.Sign"},
 			{"threshold/threshold.go", "Scheme.prepareSigning"}, {"threshold/threshold.go", "Scheme.initializeHandlers"}, {"threshold/threshold.go", "Scheme.initializeSyncForSigning"},
 			{"threshold/threshold.go", "Scheme.registerWhileActive"}, {"threshold/threshold.go", "Scheme.ensureDKGNotRunning"}, {"threshold/threshold.go", "Scheme.runSigningProtocol"}}},
+		{"auth", []fref{{"net/net.go", "handleConn"}, {"net/net.go", "authenticateConnection"}, {"net/net.go", "sha256Digest"},
+			{"net/net.go", "extractTLSBinding"}, {"net/net.go", "Handshake.Read"}, {"net/net.go", "Handshake.Write"}, {"net/net.go", "Handshake.Bytes"},
+			{"net/net.go", "ServiceConnections"}}},
+		{"net", []fref{{"net/net.go", "handleConn"}, {"net/net.go", "readMsg"},
+			{"net/net.go", "remoteParty.sendMessages"}, {"net/net.go", "remoteParty.send"}, {"net/net.go", "remoteParty.maybeConnect"}, {"net/net.go", "outChan.enqueue"},
+			{"net/net.go", "SocketRemoteParties.Send"}, {"net/net.go", "ServiceConnections"}, {"net/net.go", "remoteParty.startOnce"}}},
+		{"sss", []fref{{"mpc/bls/sss.go", "Polynomial.ValueAt"}, {"mpc/bls/sss.go", "Shares.reconstruct"}, {"mpc/bls/sss.go", "SSS.Gen"}, {"mpc/bls/sss.go", "lagrangeCoefficient"},
+			{"mpc/bls/choose.go", "chooseKoutOfN"}, {"mpc/bls/choose.go", "choose"}, {"mpc/bls/choose.go", "concatInts"},
+			{"mpc/bls/tbls.go", "localCreatePublicKeys"}, {"mpc/bls/tbls.go", "localAggregatePublicKeys"}, {"mpc/bls/tbls.go", "localAggregateSignatures"},
+			{"mpc/ps/sss.go", "Polynomial.ValueAt"}, {"mpc/ps/sss.go", "Shares.reconstruct"}, {"mpc/ps/sss.go", "SSS.Gen"}, {"mpc/ps/sss.go", "lagrangeCoefficient"},
+			{"mpc/ps/choose.go", "chooseKoutOfN"}, {"mpc/ps/choose.go", "choose"}, {"mpc/ps/choose.go", "concatInts"},
+			{"mpc/ps/tps.go", "localAggregatePublicKeys"}, {"mpc/ps/tps.go", "localAggregateECPoints"}}},
+		{"adapter", []fref{{"mpc/binance/ecdsa/mpc.go", "party.ClassifyMsg"}, {"mpc/binance/ecdsa/mpc.go", "party.OnMsg"}, {"mpc/binance/ecdsa/mpc.go", "party.Sign"},
+			{"mpc/binance/ecdsa/mpc.go", "hashToInt"}, {"mpc/binance/ecdsa/mpc.go", "digest"}, {"mpc/binance/ecdsa/mpc.go", "party.sendMessages"},
+			{"mpc/binance/ecdsa/mpc.go", "party.Init"}, {"mpc/binance/ecdsa/mpc.go", "party.locatePartyIndex"}, {"mpc/binance/ecdsa/mpc.go", "partyIDsFromNumbers"},
+			{"mpc/binance/eddsa/mpc.go", "party.ClassifyMsg"}, {"mpc/binance/eddsa/mpc.go", "party.OnMsg"}, {"mpc/binance/eddsa/mpc.go", "party.Sign"},
+			{"mpc/binance/eddsa/mpc.go", "digest"}, {"mpc/binance/eddsa/mpc.go", "party.sendMessages"}, {"mpc/binance/eddsa/mpc.go", "party.Init"},
+			{"mpc/binance/eddsa/mpc.go", "party.locatePartyIndex"}, {"mpc/binance/eddsa/mpc.go", "partyIDsFromNumbers"}, {"mpc/binance/eddsa/mpc.go", "copyBytes"}}},
 	}
 	srcs := map[string]*source{}
+	usedNames := map[string]bool{}
 	for _, grp := range groups {
 		var names []string
 		for _, f := range grp.fns {
@@ -178,9 +197,15 @@ func genStmts() string {
 			}
 			fd := srcs[f.file].fn(f.fn)
 			name := grp.name + "_" + strings.NewReplacer(".", "_", "/", "_").Replace(strings.TrimSuffix(f.file[strings.LastIndex(f.file, "/")+1:], ".go")+"_"+f.fn)
+			if usedNames[name] { // same file and function name in another directory (the two adapters, the two sss.go copies)
+				dir := f.file[:strings.LastIndex(f.file, "/")]
+				name = grp.name + "_" + strings.NewReplacer(".", "_", "/", "_").Replace(dir[strings.LastIndex(dir, "/")+1:]+"_"+strings.TrimSuffix(f.file[strings.LastIndex(f.file, "/")+1:], ".go")+"_"+f.fn)
+			}
+			usedNames[name] = true
 			names = append(names, name)
 			if fd == nil {
-				fmt.Fprintf(&g, "def %s := unknown_shape %q\n", name, f.file+": "+f.fn)
+				// (a string, not a build error: only the group that pins this function stops checking)
+				fmt.Fprintf(&g, "def %s : List String := [%q]\n", name, "<function not found: "+f.file+": "+f.fn+">")
 				continue
 			}
 			var out []string
